@@ -30,8 +30,6 @@ Definition lib (l: list string) : list tt := pth ("structdiff" :: "collections" 
 Fixpoint join_amp (ls: list (list tt)) : list tt := match ls with [] => [] | [x] => x | x :: r => x ++ TP PComma :: amp_target ++ join_amp r end.
 
 Record fdefs := { fd_aliases: list (list tt); fd_ref_aliases: list (list tt); fd_variants: list (string * list tt); fd_ref_variants: list (string * list tt) }.
-(* usize::to_string *)
-Definition dec (n: nat) : string := NilEmpty.string_of_uint (Nat.to_uint n).
 (* the struct's name with its length in front (the aliases of exposed structs share a module: `A` + `bc` must not meet `Ab` + `c`) *)
 Definition alias_owner (sname: string) : string := (dec (String.length (strip_raw sname)) ++ strip_raw sname)%string.
 Definition alias_names (sname ident: string) : string * string :=
